@@ -5,7 +5,7 @@
    explicit `return` status per context index, or none: the function runs to its end)
    together with what the run showed (trace file: invocations and, per invocation, the
    marks of the commands that started; exit status; whether the configuration text was on
-   stdout).  Evaluated by vm_compute in the generated cases files.
+   stdout) - and the text its __config__ writes together with the complete stdout of the run.  Evaluated by vm_compute in the generated cases files.
 
    [exotic] marks the separate stream of binding names the model does not speak about
    (blanks, glob characters, quotes, ...): those
@@ -24,12 +24,26 @@ Record hdef := mkH {
   h_arms    : list (N * body)    (* the commands for particular context indices *)
 }.
 
+(* A byte string in run-length form: the chunks in order, each a byte string written
+   [count] times.  Used for the text the generated __config__ writes (a text may be longer
+   than a command argument can be: 128 KiB) and for the raw stdout of the run, which the
+   harness records completely and encodes losslessly in the same form. *)
+Definition chunk := (N * bytes)%type.
+
+Fixpoint rep (n : nat) (b : bytes) : bytes :=
+  match n with O => [] | S k => b ++ rep k b end.
+
+Definition written (l : list chunk) : bytes :=
+  concat (map (fun c : chunk => rep (N.to_nat (fst c)) (snd c)) l).
+
 Record case := mkCase {
   k_exotic  : bool;
   k_args    : list bytes;
   k_ctxs    : list ctx;
   k_defined : list hdef;
-  k_obs     : obsB
+  k_config  : list chunk;        (* what the script's __config__ writes (before its commands) *)
+  k_obs     : obsB;
+  k_stdout  : list chunk         (* the stdout of the run, every byte of it *)
 }.
 
 Fixpoint lookup_h (n : name) (l : list hdef) : option hdef :=
@@ -62,8 +76,12 @@ Definition inputB_of (c : case) : inputB :=
 
 Definition input_of (c : case) : input := to_input (inputB_of c).
 
-Definition model_obs (c : case) : obsB :=
-  runB (k_args c) (defined_of c) (bodies_of c) (k_ctxs c).
+Definition inputC_of (c : case) : inputC := mkInputC (inputB_of c) (written (k_config c)).
+
+Definition model_obs (c : case) : obsC :=
+  runC (k_args c) (defined_of c) (bodies_of c) (k_ctxs c) (written (k_config c)).
+
+Definition observed (c : case) : obsC := mkObsC (k_obs c) (written (k_stdout c)).
 
 Definition obs_eqb (a b : obs) : bool :=
   list_eqb entry_eqb (o_trace a) (o_trace b)
@@ -75,9 +93,13 @@ Definition step_eqb (a b : step) : bool := N.eqb (fst a) (fst b) && N.eqb (snd a
 Definition obsB_eqb (a b : obsB) : bool :=
   obs_eqb (ob_obs a) (ob_obs b) && list_eqb (list_eqb step_eqb) (ob_steps a) (ob_steps b).
 
-Definition agrees (c : case) : bool := obsB_eqb (model_obs c) (k_obs c).
+(* raw bytes of stdout are compared, nothing is trimmed or normalised *)
+Definition obsC_eqb (a b : obsC) : bool :=
+  obsB_eqb (oc_run a) (oc_run b) && bytes_eqb (oc_stdout a) (oc_stdout b).
+
+Definition agrees (c : case) : bool := obsC_eqb (model_obs c) (observed c).
 Definition spec_ok (c : case) : bool :=
-  negb (in_domain (input_of c)) || PB (inputB_of c) (ob_obs (k_obs c)).
+  negb (in_domain (input_of c)) || PC (inputC_of c) (observed c).
 
 Definition mismatches (cs : list case) : list N :=
   indices_where (fun c => negb (k_exotic c) && negb (agrees c)) cs.
